@@ -4,7 +4,9 @@ use bitcode::{Decode, Encode};
 
 use crate::{
     cf_types::CfRule,
-    types::{Cell, Col, Color, Link, Row, SheetState, Style, StyleIncludes, Theme, Worksheet},
+    types::{
+        Cell, Col, Color, Dxf, Link, Row, SheetState, Style, StyleIncludes, Theme, Worksheet,
+    },
 };
 
 #[derive(Clone, Encode, Decode)]
@@ -266,6 +268,10 @@ pub(crate) enum Diff {
         range: String,
         rule: Box<CfRule>,
         priority: u32,
+        // The format the rule applies when the operation created one: `rule` only
+        // holds its index in the dxf table of the model the diff was recorded on,
+        // and a model applying the diff needs the format itself.
+        dxf: Option<Dxf>,
     },
     DeleteConditionalFormatting {
         sheet: u32,
@@ -282,6 +288,8 @@ pub(crate) enum Diff {
         old_priority: u32,
         new_range: String,
         new_rule: Box<CfRule>,
+        // see `AddConditionalFormatting`
+        new_dxf: Option<Dxf>,
     },
     /// Sets (`new_value` is `Some`) or deletes (`new_value` is `None`) the link
     /// attached to a cell. `old_value` is the link previously in the cell if any.
